@@ -748,6 +748,382 @@ example (s : Loaded) : readAtoms auAtomRows 8 s "atomic" auU = readAtoms auAtomR
       have : auAtomRows.mapM (readFlagRow (colsWidth auAtomic)) = .ok [(2, ⟨1, 0, 0⟩), (1, ⟨0, 0, -1⟩)] := by decide +kernel
       rw [this] at hf; cases hf; decide +kernel)
 
+
+/-! ### joint instantiations of the round-trip theorems: every premise discharged on ONE concrete system
+    (tilted cell, origin off zero, a non-periodic direction, two or three atoms, a `(2,)` property `w` whose value 1/3 is
+    not printable exactly, unit factors 2 / 3 / 5; dump file with ids 2, 1) -/
+
+instance jDecClean (t : Tok) : Decidable (CleanTok t) := by unfold CleanTok; infer_instance
+instance jDecOk (t : Tok) : Decidable (okTok t) := by unfold okTok okChars; infer_instance
+theorem ok_of_toOption {α : Type} {r : Res α} {a : α} (h : r.toOption = some a) : r = .ok a := by
+  cases r with
+  | ok b => simp [Except.toOption] at h; rw [h]
+  | error e => simp [Except.toOption] at h
+theorem ok_of_isSome {α : Type} {r : Res α} (h : r.toOption.isSome = true) : ∃ a, r = .ok a := by
+  cases r with
+  | ok b => exact ⟨b, rfl⟩
+  | error e => simp [Except.toOption] at h
+
+def jSys : Sys :=
+  { box := ⟨⟨⟨4, 0, 0⟩, ⟨1, 3, 0⟩, ⟨0, 0, 5⟩⟩, ⟨-1, 0, 0⟩⟩, pbc := ⟨true, true, false⟩, natypes := 2,
+    atype := [1, 2], pos := [⟨0, 0, 0⟩, ⟨9/2, 1, 6⟩], props := [⟨"w", false, 2, [[7/2, -1/4], [5/2, 1/3]]⟩] }
+def jU : Units := [("length", some 2)]
+def jCols : List ColSpec := [⟨"a_id", ["id"], .none⟩, ⟨"atype", ["type"], .none⟩, ⟨"pos", ["x", "y", "z"], .kind "length"⟩, ⟨"w", ["w[0]", "w[1]"], .none⟩]
+def jP : List PCol := [⟨"a_id", ["id"], [], .none⟩, ⟨"atype", ["type"], [], .none⟩, ⟨"pos", ["x", "y", "z"], [3], .factor 2⟩,
+  ⟨"w", ["w[0]", "w[1]"], [2], .none⟩]
+def jTableText : List Char := "id type x y z w[0] w[1]\n1 1 0.000 0.000 0.000 3.500 -0.250\n2 2 2.250 0.500 3.000 2.500 0.333\n".toList
+def jRows : List (List Cell) := [[.int 1, .int 1, .num 0, .num 0, .num 0, .num (7/2), .num (-1/4)], [.int 2, .int 2, .num (9/4), .num (1/2), .num 3, .num (5/2), .num (1/3)]]
+
+theorem jWriteTable : writeTable jSys jCols jU (.fixed 3) true = .ok jTableText := ok_of_toOption (by decide +kernel)
+theorem jTableRows : tableRows jSys jU (seqIds jSys.natoms) jSys.pos jCols [] = .ok jRows := ok_of_toOption (by decide +kernel)
+theorem jLoadTable : ∃ s', loadTable jTableText auBox jP true = .ok s' := ok_of_isSome (by decide +kernel)
+
+example : ∃ s' qw qp, loadTable jTableText auBox jP true = .ok s' ∧ s'.natoms = 2 ∧
+    s'.prop? "w" = some qw ∧ qw.shape = [2] ∧ qw.vals = [[7/2, -1/4], [5/2, 333/1000]] ∧
+    s'.prop? "pos" = some qp ∧ qp.shape = [3] ∧ qp.vals = [[0, 0, 0], [9/2, 1, 6]] := by
+  obtain ⟨s', hl⟩ := jLoadTable
+  obtain ⟨rows, hr, H⟩ := load_dump_roundtrip_table_values (all_formats_readable (.fixed 3)) jSys jCols jU true jTableText
+    jWriteTable (by decide +kernel) (by decide +kernel)
+  rw [jTableRows] at hr; cases hr
+  obtain ⟨hn, hv⟩ := H auBox jP s' (by decide) (by decide +kernel) (by decide)
+    (fun i hi => by
+      have : i = 0 := by
+        have h0 : idIndex jP = some 0 := by decide +kernel
+        rw [h0] at hi; cases hi; rfl
+      subst this; decide +kernel)
+    (by decide) hl
+  obtain ⟨qw, hqw, hsw, hvw, _⟩ := hv 3 (by decide) (by decide)
+  obtain ⟨qp, hqp, hsp, _, hvp⟩ := hv 2 (by decide) (by decide)
+  refine ⟨s', qw, qp, hl, hn, hqw, hsw, ?_, hqp, hsp, ?_⟩
+  · rw [hvw rfl]; decide +kernel
+  · rw [hvp 2 rfl]; decide +kernel
+
+def jSysD : Sys :=
+  { box := ⟨⟨⟨4, 0, 0⟩, ⟨1, 3, 0⟩, ⟨0, 0, 5⟩⟩, ⟨-1, 0, 0⟩⟩, pbc := ⟨true, true, false⟩, natypes := 2,
+    atype := [1, 2], pos := [⟨0, 0, 0⟩, ⟨9/2, 1, 6⟩],
+    props := [⟨"atom_id", true, 1, [[2], [1]]⟩, ⟨"w", false, 2, [[7/2, -1/4], [5/2, 1/3]]⟩] }
+def jProps : List (String × List Nat) := [("atom_id", []), ("atype", []), ("pos", [3]), ("w", [2])]
+def jPU : List PCol := [⟨"a_id", ["id"], [], .none⟩, ⟨"atype", ["type"], [], .none⟩, ⟨"upos", ["x", "y", "z"], [3], .factor 2⟩,
+  ⟨"w", ["w[0]", "w[1]"], [2], .none⟩]
+def jDumpText : List Char := "ITEM: TIMESTEP\n7\nITEM: NUMBER OF ATOMS\n2\nITEM: BOX BOUNDS xy xz yz pp pp fm\n-0.500 2.000 0.500\n0.000 1.500 0.000\n0.000 2.500 0.000\nITEM: ATOMS id type x y z w[0] w[1]\n2 1 0.000 0.000 0.000 3.500 -0.250\n1 2 2.250 0.500 3.000 2.500 0.333\n".toList
+def jRowsD : List (List Cell) := [[.int 2, .int 1, .num 0, .num 0, .num 0, .num (7/2), .num (-1/4)], [.int 1, .int 2, .num (9/4), .num (1/2), .num 3, .num (5/2), .num (1/3)]]
+theorem jWriteDump : writeDump jSysD jProps jU (.fixed 3) 7 = .ok jDumpText := ok_of_toOption (by decide +kernel)
+theorem jDumpRows : tableRows jSysD jU (dumpIds jSysD) jSysD.pos (dumpCols jProps) [] = .ok jRowsD := ok_of_toOption (by decide +kernel)
+theorem jLoadDump : ∃ s', loadDump jDumpText none (some jPU) jU = .ok s' := ok_of_isSome (by decide +kernel)
+
+example : ∃ s' qw qp, loadDump jDumpText none (some jPU) jU = .ok s' ∧ s'.natoms = 2 ∧ s'.pbc = ⟨true, true, false⟩ ∧
+    s'.box = ⟨⟨⟨4, 0, 0⟩, ⟨1, 3, 0⟩, ⟨0, 0, 5⟩⟩, ⟨-1, 0, 0⟩⟩ ∧
+    s'.prop? "w" = some qw ∧ qw.shape = [2] ∧ qw.vals = [[5/2, 333/1000], [7/2, -1/4]] ∧
+    s'.prop? "pos" = some qp ∧ qp.shape = [3] ∧ qp.vals = [[9/2, 1, 6], [0, 0, 0]] := by
+  obtain ⟨s', hl⟩ := jLoadDump
+  obtain ⟨lf, rows, hlf, hr, hlen, H⟩ := load_dump_roundtrip_dump_values (all_formats_readable (.fixed 3)) jSysD jProps jU 7
+    jDumpText jWriteDump (by decide +kernel)
+  rw [jDumpRows] at hr; cases hr
+  have : lf = some 2 := by
+    have h2 : lengthFactor jU = .ok (some 2) := by decide +kernel
+    rw [h2] at hlf; cases hlf; rfl
+  subst this
+  obtain ⟨hn, hp, _, ⟨xlo, xhi, ylo, yhi, zlo, zhi, h1, h2, h3, h4, h5, h6, hb⟩, hv⟩ :=
+    H none jPU s' 0 (by decide) (by decide +kernel) (by decide) (by decide +kernel) (by decide +kernel) (by decide) hl
+  obtain ⟨qw, hqw, hsw, hvw, _⟩ := hv 3 (by decide) (by decide)
+  obtain ⟨qp, hqp, hsp, _, hvp⟩ := hv 2 (by decide) (by decide)
+  have e1 : (dumpState (.fixed 3) (some 2) jSysD jProps).xlo = some (-1) := by decide +kernel
+  have e2 : (dumpState (.fixed 3) (some 2) jSysD jProps).xhi = some 3 := by decide +kernel
+  have e3 : (dumpState (.fixed 3) (some 2) jSysD jProps).ylo = some 0 := by decide +kernel
+  have e4 : (dumpState (.fixed 3) (some 2) jSysD jProps).yhi = some 3 := by decide +kernel
+  have e5 : (dumpState (.fixed 3) (some 2) jSysD jProps).zlo = some 0 := by decide +kernel
+  have e6 : (dumpState (.fixed 3) (some 2) jSysD jProps).zhi = some 5 := by decide +kernel
+  rw [e1] at h1; rw [e2] at h2; rw [e3] at h3; rw [e4] at h4; rw [e5] at h5; rw [e6] at h6
+  cases h1; cases h2; cases h3; cases h4; cases h5; cases h6
+  have hbox : Box.ofHiLos? (-1 : ℚ) 3 0 3 0 5 (dumpState (.fixed 3) (some 2) jSysD jProps).xy (dumpState (.fixed 3) (some 2) jSysD jProps).xz
+      (dumpState (.fixed 3) (some 2) jSysD jProps).yz = some ⟨⟨⟨4, 0, 0⟩, ⟨1, 3, 0⟩, ⟨0, 0, 5⟩⟩, ⟨-1, 0, 0⟩⟩ := by decide +kernel
+  rw [hbox] at hb
+  refine ⟨s', qw, qp, hl, hn, hp, (Option.some.inj hb).symm, hqw, hsw, ?_, hqp, hsp, ?_⟩
+  · rw [hvw rfl]; decide +kernel
+  · rw [hvp 2 rfl]; decide +kernel
+
+def jUQ : Units := [("length", some 2), ("charge", some 3), ("velocity", some 5)]
+def jSysQ : Sys :=
+  { box := ⟨⟨⟨4, 0, 0⟩, ⟨1, 3, 0⟩, ⟨0, 0, 5⟩⟩, ⟨-1, 0, 0⟩⟩, pbc := ⟨true, true, false⟩, natypes := 2,
+    atype := [1, 2], pos := [⟨0, 0, 0⟩, ⟨9/2, 1, 6⟩],
+    props := [⟨"charge", false, 1, [[7/2], [-1/3]]⟩, ⟨"velocity", false, 3, [[1, 2, 3], [-4, 5/2, 0]]⟩] }
+def jDataText : List Char := "\n2 atoms\n2 atom types\n-0.500 1.500 xlo xhi\n0.000 1.500 ylo yhi\n-0.002 3.002 zlo zhi\n0.500 0.000 0.000 xy xz yz\n\nAtoms # charge\n\n1 1 1.167 0.000 0.000 0.000 0 0 0\n2 2 -0.111 0.250 0.500 3.000 1 0 0\n\nVelocities\n\n1 0.200 0.400 0.600\n2 -0.800 0.500 0.000\n".toList
+def jCharge : List PCol := [⟨"a_id", ["id"], [], .none⟩, ⟨"atype", ["type"], [], .none⟩, ⟨"charge", ["q"], [], .factor 3⟩, ⟨"pos", ["x", "y", "z"], [3], .factor 2⟩]
+def jChargeVel : List PCol := [⟨"a_id", ["id"], [], .none⟩, ⟨"velocity", ["vx", "vy", "vz"], [3], .factor 5⟩]
+def jDataRows : List (List Cell) := [[.int 1, .int 1, .num (7/6), .num 0, .num 0, .num 0, .int 0, .int 0, .int 0],
+  [.int 2, .int 2, .num (-1/9), .num (1/4), .num (1/2), .num 3, .int 1, .int 0, .int 0]]
+def jVelRows : List (List Cell) := [[.int 1, .num (1/5), .num (2/5), .num (3/5)], [.int 2, .num (-4/5), .num (1/2), .num 0]]
+theorem jSW : styleWords "charge" = ["charge"] := by
+  simp [styleWords, String.splitOn]
+  repeat (rw [String.splitOnAux]; simp (config := {decide := true}))
+theorem jWriteData : writeData jSysQ "charge" jUQ (.fixed 3) = .ok jDataText := ok_of_toOption (by
+  unfold writeData writeDataDoc dataParts atomCols velCols styleCols dataDocOf
+  simp only [jSW]
+  decide +kernel)
+theorem jDataParts : ∃ p w, dataParts jSysQ "charge" jUQ = .ok (p, w) ∧ p.rows = jDataRows ∧ p.vel = some jVelRows := by
+  obtain ⟨a, ha⟩ := ok_of_isSome (r := dataParts jSysQ "charge" jUQ) (by
+    unfold dataParts atomCols velCols styleCols; simp only [jSW]; decide +kernel)
+  have h1 : (dataParts jSysQ "charge" jUQ).toOption.map (·.1.rows) = some jDataRows := by
+    unfold dataParts atomCols velCols styleCols; simp only [jSW]; decide +kernel
+  have h2 : (dataParts jSysQ "charge" jUQ).toOption.map (·.1.vel) = some (some jVelRows) := by
+    unfold dataParts atomCols velCols styleCols; simp only [jSW]; decide +kernel
+  rw [ha] at h1 h2
+  exact ⟨a.1, a.2, ha, by simpa [Except.toOption] using h1, by simpa [Except.toOption] using h2⟩
+theorem jLookupQ : lookupCols Gen.LoadStyles.atomStyles "charge" jUQ = .ok jCharge := by decide +kernel
+theorem jLookupQV : lookupCols Gen.LoadStyles.velStyles "charge" jUQ = .ok jChargeVel := by decide +kernel
+theorem jLoadData : ∃ s', loadData jDataText ⟨true, true, false⟩ none none jUQ = .ok s' := ok_of_isSome (by decide +kernel)
+
+example : ∃ s' qq qt, loadData jDataText ⟨true, true, false⟩ none none jUQ = .ok s' ∧ s'.natoms = 2 ∧
+    s'.prop? "charge" = some qq ∧ qq.shape = [] ∧ qq.vals = [[3501/1000], [-333/1000]] ∧
+    s'.prop? "atype" = some qt ∧ qt.shape = [] ∧ qt.vals = [[1], [2]] := by
+  obtain ⟨s', hl⟩ := jLoadData
+  obtain ⟨lf, p, w, hlf, hp, hlen, H⟩ := load_dump_roundtrip_data_values (all_formats_readable (.fixed 3)) jSysQ "charge" jUQ
+    jDataText jWriteData ⟨by rw [jSW]; decide, by rw [jSW]; decide +kernel⟩
+  obtain ⟨p', w', hp', hrows, hvel⟩ := jDataParts
+  rw [hp'] at hp; cases hp
+  obtain ⟨hn, hv⟩ := H ⟨true, true, false⟩ none none s' "charge" jCharge 9 0
+    (by rw [hrows]; decide) (by rw [hrows]; decide +kernel) (by decide)
+    (fun vr hvr => by rw [hvel] at hvr; cases hvr; decide +kernel)
+    (by rw [jSW]; decide +kernel) jLookupQ (by decide +kernel) (by decide +kernel) (by rw [hrows]; decide +kernel) (by decide) hl
+  have hvc : ∀ (nm : String), nm ≠ "a_id" → nm ≠ "velocity" →
+      ∀ vc, lookupCols Gen.LoadStyles.velStyles "charge" jUQ = .ok vc → ∀ c ∈ vc, c.prop ≠ nm := by
+    intro nm h1 h2 vc hvc c hc
+    rw [jLookupQV] at hvc; cases hvc
+    simp only [jChargeVel, List.mem_cons, List.not_mem_nil, or_false] at hc
+    rcases hc with rfl | rfl
+    · exact fun h => h1 h.symm
+    · exact fun h => h2 h.symm
+  obtain ⟨qq, hqq, hsq, _, hvq⟩ := hv 2 (by decide) (by decide) (by decide) (hvc _ (by decide) (by decide))
+  obtain ⟨qt, hqt, hst, hvt, _⟩ := hv 1 (by decide) (by decide) (by decide) (hvc _ (by decide) (by decide))
+  refine ⟨s', qq, qt, hl, hn, hqq, hsq, ?_, hqt, hst, ?_⟩
+  · rw [hvq 3 rfl, hrows]; decide +kernel
+  · rw [hvt rfl, hrows]; decide +kernel
+
+def jSysP : Sys :=
+  { box := ⟨⟨⟨4, 0, 0⟩, ⟨1, 3, 0⟩, ⟨0, 0, 5⟩⟩, ⟨0, 0, 0⟩⟩, pbc := ⟨true, true, true⟩, natypes := 2,
+    atype := [2, 1, 2], pos := [⟨1, 2, 1⟩, ⟨9/2, 1, 6⟩, ⟨1/3, 1/3, 1/3⟩], props := [] }
+def jPoscarText : List Char := "a title\n2.0000\n2.0000 0.0000 0.0000\n0.5000 1.5000 0.0000\n0.0000 0.0000 2.5000\nAl Cu\n1 2 \nDirect\n1.0417 0.3333 1.2000\n0.0833 0.6667 0.2000\n0.0556 0.1111 0.0667".toList
+theorem jWritePoscar : writePoscar jSysP ["a", "title"] (some ["Al", "Cu"]) "Direct" 2 (.fixed 4) = .ok jPoscarText :=
+  ok_of_toOption (by decide +kernel)
+/-- what `load_dump_roundtrip_poscar` says the loader returns for `jPoscarText` -/
+def jPoscarLoaded : Loaded :=
+  poscarLoaded (.fixed 4) 2 (poscarNums jSysP (isCartStyle "Direct") 2).lattice (poscarNums jSysP (isCartStyle "Direct") 2).counts
+    (poscarNums jSysP (isCartStyle "Direct") 2).coords (isCartStyle "Direct")
+    ((none : Option (List (Option String))).getD (writtenSymbols (some ["Al", "Cu"]) (poscarNums jSysP (isCartStyle "Direct") 2).counts))
+
+-- `load_dump_roundtrip_poscar`
+theorem jPoscar : loadPoscar jPoscarText none = .ok jPoscarLoaded :=
+  load_dump_roundtrip_poscar (all_formats_readable (.fixed 4)) jSysP ["a", "title"] (some ["Al", "Cu"]) "Direct" 2 jPoscarText
+    jWritePoscar (by decide +kernel)
+    (fun l hl => by cases hl; exact ⟨by decide +kernel, by decide +kernel⟩)
+    (by decide +kernel) (by decide +kernel) (by decide +kernel) none
+example : jPoscarLoaded.natoms = 3 ∧ jPoscarLoaded.symbols = [some "Al", some "Cu"] ∧
+    jPoscarLoaded.box = ⟨⟨⟨4, 0, 0⟩, ⟨1, 3, 0⟩, ⟨0, 0, 5⟩⟩, ⟨0, 0, 0⟩⟩ ∧
+    (jPoscarLoaded.prop? "atype").map (·.vals) = some [[1], [2], [2]] ∧
+    (jPoscarLoaded.prop? "pos").map (·.vals) = some [[45001/10000, 9999/10000, 6], [9999/10000, 20001/10000, 1],
+      [667/2000, 3333/10000, 667/2000]] := by decide +kernel
+
+-- `load_dump_roundtrip_poscar_any_route`
+example : ∃ w', dumpTo ⟨[("POSCAR", cs!"old old old")], []⟩ (.pathObj "POSCAR") jPoscarText = .ok (w', none) ∧
+    loadVia (fun t => loadPoscar t none) w' (.str "POSCAR".toList) = .ok jPoscarLoaded :=
+  load_dump_roundtrip_poscar_any_route (all_formats_readable (.fixed 4)) jSysP ["a", "title"] (some ["Al", "Cu"]) "Direct" 2 jPoscarText
+    jWritePoscar (by decide +kernel)
+    (fun l hl => by cases hl; exact ⟨by decide +kernel, by decide +kernel⟩)
+    (by decide +kernel) (by decide +kernel) (by decide +kernel) none _ (.pathObj "POSCAR") "POSCAR" (Or.inr (Or.inl rfl)) _ (Or.inl rfl)
+
+-- `load_eq_independent_parse_poscar`
+example : ∃ pp, parsePoscar jPoscarText = some pp ∧ loadPoscar jPoscarText none = .ok (loadedOfParsed pp none) :=
+  load_eq_independent_parse_poscar jSysP ["a", "title"] (some ["Al", "Cu"]) "Direct" 2 (.fixed 4) jPoscarText jWritePoscar
+    ⟨by decide +kernel, by decide +kernel, fun c r h => by
+        have : "Direct".toList = ['D', 'i', 'r', 'e', 'c', 't'] := by decide
+        rw [this] at h; cases h; decide,
+      fun l hl => by cases hl; exact ⟨by decide +kernel, "Al", ["Cu"], rfl, by decide +kernel⟩⟩
+    (by decide +kernel) (by decide) (by decide +kernel)
+    (fun l hl => by cases hl; decide +kernel) none
+
+def jInit : Loaded := Loaded.init auBox ⟨true, true, false⟩ 2 [] []
+
+-- `tableLoad_rowsDoc`, `table_values_of_rows`: written rows in id order (`jRows`), read without `usecols`
+example : ∃ s' tbl q, tableLoad jInit (rowsDoc (.fixed 3) jRows) jP false = .ok s' ∧
+    tableLoad jInit (rowsDoc (.fixed 3) jRows) jP false = assignCols jInit.box jP (columnCells jP tbl) jInit ∧
+    s'.prop? "w" = some q ∧ q.shape = [2] ∧ q.vals = [[7/2, -1/4], [5/2, 333/1000]] := by
+  obtain ⟨s', h⟩ := ok_of_isSome (r := tableLoad jInit (rowsDoc (.fixed 3) jRows) jP false) (by decide +kernel)
+  have hs : ∀ i, idIndex jP = some i →
+      (jRows.map fun r => (r.take (colsWidth jP)).map (cellRat (.fixed 3))).Pairwise fun a b => (a[i]?).getD 0 ≤ (b[i]?).getD 0 := by
+    intro i hi
+    have h0 : idIndex jP = some 0 := by decide +kernel
+    rw [h0] at hi; cases hi; decide +kernel
+  obtain ⟨tbl, ht, _⟩ := tableLoad_rowsDoc (all_formats_readable (.fixed 3)) jInit jRows jP 7 false (by decide) (by decide +kernel)
+    (by decide +kernel) hs
+  obtain ⟨q, hq, hsq, hv, _⟩ := table_values_of_rows (all_formats_readable (.fixed 3)) jInit s' jRows jP 7 false (by decide)
+    (by decide +kernel) (by decide +kernel) hs (by decide) (by decide) h 3 (by decide) (by decide)
+  exact ⟨s', tbl, q, h, ht, hq, hsq, by rw [hv rfl]; decide +kernel⟩
+
+-- `tableLoad_rowsDoc_sorted`, `table_values_of_rows_sorted`: written rows with ids 2, 1 (`jRowsD`)
+example : ∃ s' tbl q, tableLoad jInit (rowsDoc (.fixed 3) jRowsD) jP false = .ok s' ∧
+    tableLoad jInit (rowsDoc (.fixed 3) jRowsD) jP false = assignCols jInit.box jP (columnCells jP tbl) jInit ∧
+    s'.prop? "pos" = some q ∧ q.shape = [3] ∧ q.vals = [[9/2, 1, 6], [0, 0, 0]] := by
+  obtain ⟨s', h⟩ := ok_of_isSome (r := tableLoad jInit (rowsDoc (.fixed 3) jRowsD) jP false) (by decide +kernel)
+  obtain ⟨tbl, ht, _⟩ := tableLoad_rowsDoc_sorted (all_formats_readable (.fixed 3)) jInit jRowsD jP 7 false 0 (by decide)
+    (by decide +kernel) (by decide +kernel) (by decide +kernel) (by decide +kernel)
+  obtain ⟨q, hq, hsq, _, hv⟩ := table_values_of_rows_sorted (all_formats_readable (.fixed 3)) jInit s' jRowsD jP 7 false 0 (by decide)
+    (by decide +kernel) (by decide +kernel) (by decide +kernel) (by decide +kernel) (by decide) (by decide) h 2 (by decide) (by decide)
+  exact ⟨s', tbl, q, h, ht, hq, hsq, by rw [hv 2 rfl]; decide +kernel⟩
+
+-- `loadDumpCore_given`: the header state of the written dump file, the written rows, the caller's column table
+example : ∃ s' box s1, loadDumpCore (dumpState (.fixed 3) (some 2) jSysD jProps) (some (rowsDoc (.fixed 3) jRowsD)) none (some jPU) jU = .ok s' ∧
+    Box.ofHiLos? (-1 : ℚ) 3 0 3 0 5 1 0 0 = some box ∧
+    tableLoad (Loaded.init box ⟨true, true, false⟩ 2 [] []) ((rowsDoc (.fixed 3) jRowsD).take 2) (jPU.map renamePos) false = .ok s1 ∧
+    s'.natoms = 2 ∧ s'.box = box ∧ s'.props = s1.props := by
+  obtain ⟨s', h⟩ := ok_of_isSome
+    (r := loadDumpCore (dumpState (.fixed 3) (some 2) jSysD jProps) (some (rowsDoc (.fixed 3) jRowsD)) none (some jPU) jU) (by decide +kernel)
+  obtain ⟨box, s1, h1, h2, h3, _, h5, h6, _⟩ := loadDumpCore_given _ _ none jPU jU s' 2 ⟨true, true, false⟩ (-1) 3 0 3 0 5
+    (by decide +kernel) (by decide +kernel) (by decide +kernel) h
+  have e : (dumpState (.fixed 3) (some 2) jSysD jProps).xy = 1 ∧ (dumpState (.fixed 3) (some 2) jSysD jProps).xz = 0 ∧
+      (dumpState (.fixed 3) (some 2) jSysD jProps).yz = 0 := by decide +kernel
+  rw [e.1, e.2.1, e.2.2] at h1
+  exact ⟨s', box, s1, h, h1, h2, h3, h5, h6⟩
+
+-- `propOfColumn_shape`, `propOfColumn_vals`: a `(2,)` entry with a unit factor over an integer and a real cell
+example : ∃ p, propOfColumn auBox ⟨"w", ["w[0]", "w[1]"], [2], .factor (1 / 2)⟩ [[.num (7/2), .int 1], [.num 1, .num 3]] = .ok p ∧
+    p.name = "w" ∧ p.shape = [2] ∧ p.vals.length = 2 ∧ p.vals = [[7/4, 1/2], [1/2, 3/2]] := by
+  obtain ⟨p, h⟩ := ok_of_isSome
+    (r := propOfColumn auBox ⟨"w", ["w[0]", "w[1]"], [2], .factor (1 / 2)⟩ [[.num (7/2), .int 1], [.num 1, .num 3]]) (by decide +kernel)
+  obtain ⟨h1, h2, _, h4⟩ := propOfColumn_shape _ _ _ p h
+  exact ⟨p, h, h1, h2, h4, by rw [(propOfColumn_vals _ _ _ p h).2 (1 / 2) rfl]; decide +kernel⟩
+
+def jInitQ : Loaded := Loaded.init ⟨⟨⟨4, 0, 0⟩, ⟨1, 3, 0⟩, ⟨0, 0, 5⟩⟩, ⟨-1, 0, 0⟩⟩ ⟨true, true, false⟩ 2 [] []
+
+-- `dataParts_rows_length`
+example : ∃ p w, dataParts jSysQ "charge" jUQ = .ok (p, w) ∧ p.rows.length = 2 ∧ p.natoms = 2 := by
+  obtain ⟨p, w, hp, _, _⟩ := jDataParts
+  exact ⟨p, w, hp, dataParts_rows_length jSysQ "charge" jUQ p w hp⟩
+
+-- `atoms_section_values`, `applyFlags_other`: the written `Atoms` rows of `jSysQ` (9 cells: 6 columns + image flags)
+example : ∃ s' q, readAtoms (rowsDoc (.fixed 3) jDataRows) 9 jInitQ "charge" jUQ = .ok s' ∧ s'.natoms = 2 ∧
+    s'.prop? "charge" = some q ∧ q.shape = [] ∧ q.vals = [[3501/1000], [-333/1000]] := by
+  obtain ⟨s', h⟩ := ok_of_isSome (r := readAtoms (rowsDoc (.fixed 3) jDataRows) 9 jInitQ "charge" jUQ) (by decide +kernel)
+  obtain ⟨hn, hv⟩ := atoms_section_values (all_formats_readable (.fixed 3)) jInitQ s' jDataRows "charge" jUQ jCharge 9 9 0
+    (by decide) (by decide +kernel) jLookupQ (by decide +kernel) (by decide +kernel) (by decide +kernel) (by decide) (by decide) h
+  obtain ⟨q, hq, hs, _, hvq⟩ := hv 2 (by decide) (by decide) (by decide)
+  exact ⟨s', q, h, hn, hq, hs, by rw [hvq 3 rfl]; decide +kernel⟩
+
+def jTabled : Option Loaded := (tableLoad jInitQ (rowsDoc (.fixed 3) jDataRows) jCharge true).toOption
+example : ∃ s1 s' q, jTabled = some s1 ∧ applyFlags s1 (rowsDoc (.fixed 3) jDataRows) 6 = .ok s' ∧
+    s'.prop? "charge" = s1.prop? "charge" ∧ s1.prop? "charge" = some q ∧ s'.prop? "pos" ≠ s1.prop? "pos" := by
+  have h : (jTabled.bind fun s1 => (applyFlags s1 (rowsDoc (.fixed 3) jDataRows) 6).toOption.map fun s' =>
+      ((s1.prop? "charge").isSome, decide (s'.prop? "pos" ≠ s1.prop? "pos"))) = some (true, true) := by decide +kernel
+  cases h1 : jTabled with
+  | none => rw [h1] at h; cases h
+  | some s1 =>
+    rw [h1] at h
+    simp only [Option.bind_some] at h
+    cases h2 : applyFlags s1 (rowsDoc (.fixed 3) jDataRows) 6 with
+    | error e => rw [h2] at h; cases h
+    | ok s' =>
+      rw [h2] at h
+      simp only [Except.toOption, Option.map_some, Option.some.injEq, Prod.mk.injEq, decide_eq_true_eq] at h
+      obtain ⟨q, hq⟩ := Option.isSome_iff_exists.mp h.1
+      exact ⟨s1, s', q, rfl, h2, applyFlags_other s1 s' _ 6 h2 "charge" (by decide), hq, h.2⟩
+
+-- `loadDataCore_values`: what the first pass hands on for the written file of `jSysQ`, the written `Atoms` rows followed by
+-- the `Velocities` header line, and the `Velocities` rows
+def jFP : FirstPass :=
+  { natoms := 2, hilo := ⟨-1, 3, 0, 3, -1/250, 751/125, 1, 0, 0⟩,
+    box := ⟨⟨⟨4, 0, 0⟩, ⟨1, 3, 0⟩, ⟨0, 0, 751/125⟩⟩, ⟨-1, 0, -1/250⟩⟩, atomsColumns := 9, hint := some (cs!"charge"), masses := [] }
+example : ∃ s' q, loadDataCore jFP (rowsDoc (.fixed 3) jDataRows ++ [[cs!"Velocities"]]) (some (rowsDoc (.fixed 3) jVelRows))
+      ⟨true, true, false⟩ none none jUQ = .ok s' ∧ s'.natoms = 2 ∧
+    s'.prop? "charge" = some q ∧ q.shape = [] ∧ q.vals = [[3501/1000], [-333/1000]] := by
+  obtain ⟨s', h⟩ := ok_of_isSome (r := loadDataCore jFP (rowsDoc (.fixed 3) jDataRows ++ [[cs!"Velocities"]])
+    (some (rowsDoc (.fixed 3) jVelRows)) ⟨true, true, false⟩ none none jUQ) (by decide +kernel)
+  obtain ⟨hn, hv⟩ := loadDataCore_values (all_formats_readable (.fixed 3)) jFP jDataRows [[cs!"Velocities"]]
+    (some (rowsDoc (.fixed 3) jVelRows)) ⟨true, true, false⟩ none none jUQ s' "charge" jCharge 9 0
+    (by decide) (by decide) (by decide +kernel) (by decide +kernel) jLookupQ (by decide +kernel) (by decide +kernel)
+    (by decide +kernel) (by decide) h
+  obtain ⟨q, hq, hs, _, hvq⟩ := hv 2 (by decide) (by decide) (by decide) (fun vc hvc c hc => by
+    rw [jLookupQV] at hvc; cases hvc
+    simp only [jChargeVel, List.mem_cons, List.not_mem_nil, or_false] at hc
+    rcases hc with rfl | rfl <;> decide)
+  exact ⟨s', q, h, hn, hq, hs, by rw [hvq 3 rfl]; decide +kernel⟩
+
+-- `load_perm_invariant_data_file`: the written parts of `jSysQ` and the same with the two atom lines swapped
+theorem readFlagRow_fst (n : Nat) (r : Line) (x : Rat × V3 Int) (h : readFlagRow n r = .ok x) :
+    ∃ idt i, r.head? = some idt ∧ pyInt idt = .ok i ∧ x.1 = (i : Rat) := by
+  unfold readFlagRow at h
+  split at h
+  · rename_i idt a b c hh ht
+    simp only [bind, Except.bind, pure, Except.pure] at h
+    cases h1 : pyInt idt with
+    | error e => simp [h1] at h
+    | ok i =>
+      cases h2 : pyInt a <;> cases h3 : pyInt b <;> cases h4 : pyInt c <;> simp [h1, h2, h3, h4] at h
+      subst h
+      exact ⟨idt, i, hh, h1, rfl⟩
+  · cases h
+theorem colsWidth_eq_names (cols : List PCol) : colsWidth cols = ((cols.map (·.names)).flatten).length := by
+  induction cols with
+  | nil => rfl
+  | cons c cs ih => simp [colsWidth] at ih ⊢; omega
+def jParts : DataParts := ⟨2, 2, ⟨-1/2, 3/2, 0, 3/2, -1/400, 1201/400, 1/2, 0, 0⟩, jDataRows, some jVelRows⟩
+def jParts' : DataParts := { jParts with rows := jDataRows.reverse }
+example : loadData (renderLines (dataDocOf (.fixed 3) "charge" jParts)) ⟨true, true, false⟩ none none jUQ =
+    loadData (renderLines (dataDocOf (.fixed 3) "charge" jParts')) ⟨true, true, false⟩ none none jUQ := by
+  have hpos : ∀ st cols, lookupCols Gen.LoadStyles.atomStyles st jUQ = .ok cols → ∃ k, colsWidth cols = k + 1 := by
+    intro st cols h
+    have h0 := lookupCols_id_first st jUQ cols h
+    rw [colsWidth_eq_names]
+    unfold idIndex at h0
+    simp only at h0
+    split at h0
+    · rename_i hlt; exact ⟨_, (Nat.succ_pred_eq_of_pos (by omega)).symm⟩
+    · cases h0
+  refine load_perm_invariant_data_file (all_formats_readable (.fixed 3)) "charge" jParts jParts' jUQ
+    ⟨by rw [jSW]; decide, by rw [jSW]; decide +kernel⟩ ⟨rfl, rfl, rfl, rfl⟩ (List.reverse_perm jDataRows) (by decide) 9 (by decide +kernel)
+    (by decide) (by decide) (fun vr hvr => by cases hvr; decide +kernel) _ none none ?_ ?_
+  · intro st cols t hc ht
+    obtain ⟨k, hk⟩ := hpos st cols hc
+    rw [hk] at ht
+    by_cases hle : k + 1 ≤ 9
+    · obtain ⟨tbl, h1, h2⟩ := readTable_rowsDoc (all_formats_readable (.fixed 3)) jDataRows 9 (k + 1) true (by decide)
+        (by decide +kernel) (by simpa using hle)
+      have e : jParts.rows = jDataRows := rfl
+      rw [e, h1] at ht; cases ht
+      have : t.map (rowKey 0) = (t.map (·.map Val.toRat)).map (fun r => (r[0]?).getD 0) := by
+        rw [List.map_map]; exact List.map_congr_left fun r _ => rowKey_toRat 0 r
+      rw [this, h2]
+      simp only [jDataRows, List.map, List.take_succ_cons, List.getElem?_cons_zero, Option.getD_some]
+      decide +kernel
+    · rcases readTable_cases (rowsDoc (.fixed 3) jParts.rows) (k + 1) true with h | ⟨n, _, hn, h⟩ | h
+      · rw [h.2] at ht; cases ht
+      · have : n = 9 := (hn _ (by decide +kernel : (rowsDoc (.fixed 3) jParts.rows).head! ∈ rowsDoc (.fixed 3) jParts.rows)).symm.trans (by decide +kernel)
+        subst this
+        rw [h, if_pos ⟨rfl, by omega⟩] at ht; cases ht
+      · rw [h.2.2] at ht; cases ht
+  · intro st cols fl hc hfl
+    have e : rowsDoc (.fixed 3) jParts.rows =
+        [[cs!"1", cs!"1", cs!"1.167", cs!"0.000", cs!"0.000", cs!"0.000", cs!"0", cs!"0", cs!"0"],
+         [cs!"2", cs!"2", cs!"-0.111", cs!"0.250", cs!"0.500", cs!"3.000", cs!"1", cs!"0", cs!"0"]] := by decide +kernel
+    rw [e] at hfl
+    simp only [List.mapM_cons, List.mapM_nil, bind, Except.bind, pure, Except.pure] at hfl
+    generalize colsWidth cols = n at hfl
+    cases h1 : readFlagRow n [cs!"1", cs!"1", cs!"1.167", cs!"0.000", cs!"0.000", cs!"0.000", cs!"0", cs!"0", cs!"0"] with
+    | error e1 => simp [h1] at hfl
+    | ok x1 =>
+      cases h2 : readFlagRow n [cs!"2", cs!"2", cs!"-0.111", cs!"0.250", cs!"0.500", cs!"3.000", cs!"1", cs!"0", cs!"0"] with
+      | error e2 => simp [h1, h2] at hfl
+      | ok x2 =>
+        simp only [h1, h2, Except.ok.injEq] at hfl
+        subst hfl
+        obtain ⟨t1, i1, a1, b1, c1⟩ := readFlagRow_fst _ _ _ h1
+        obtain ⟨t2, i2, a2, b2, c2⟩ := readFlagRow_fst _ _ _ h2
+        simp only [List.head?_cons, Option.some.injEq] at a1 a2
+        subst a1; subst a2
+        have d1 : pyInt (cs!"1") = .ok 1 := by decide +kernel
+        have d2 : pyInt (cs!"2") = .ok 2 := by decide +kernel
+        rw [d1] at b1; rw [d2] at b2; cases b1; cases b2
+        simp only [List.map_cons, List.map_nil, c1, c2]
+        decide +kernel
+
 end AuditExamples
 
 end Atomman.C08
